@@ -50,7 +50,7 @@ fn main() {
             runner::install_panic_hook();
             let v: serde_json::Value = serde_json::from_str(&std::fs::read_to_string(&args[3]).unwrap()).unwrap();
             let identity: Vec<String> = v["identity"].as_array().unwrap().iter().map(|x| x.as_str().unwrap().to_string()).collect();
-            dut::verif_api::set_calling_process(&identity);
+            runner::apply_identity(&identity);
             let c = &v["detail"]["case"];
             let argv: Vec<String> = c["argv"].as_array().unwrap().iter().map(|x| x.as_str().unwrap().to_string()).collect();
             let cfg = minimize::cfg_from_argv(&argv, c["gitconfig"].as_str().map(|s| s.to_string()));
@@ -80,7 +80,7 @@ fn main() {
             let cfg = minimize::cfg_from_argv(&argv, c["gitconfig"].as_str().map(|s| s.to_string()));
             let input = exec::unhex(c["input_hex"].as_str().unwrap_or(""));
             let identity: Vec<String> = v["identity"].as_array().map(|a| a.iter().map(|x| x.as_str().unwrap().to_string()).collect()).unwrap_or_else(|| vec!["git".into(), "diff".into()]);
-            dut::verif_api::set_calling_process(&identity);
+            runner::apply_identity(&identity);
             let ctx = runner::Ctx::new(Tier::Quick, 0, vec![], runner::verif_root().join("target/scratch"), 96);
             let out = exec::run_cfg(&cfg, &ctx, &input).unwrap();
             let sc = term::decode(&out);
